@@ -3,6 +3,7 @@ package c17
 import (
 	"context"
 	"fmt"
+	"runtime"
 	"sync"
 
 	"github.com/ThreeDotsLabs/watermill"
@@ -23,6 +24,7 @@ type foConsumer struct {
 	topic string
 	ch    <-chan *message.Message
 	nacks map[string]int // message id (metadata idKey) -> number of Nacks before the Ack
+	yield int            // Gosched calls between receiving a message and settling it (a worker that is not instantaneous)
 
 	mu   sync.Mutex
 	got  []vlib.MsgSnap
@@ -40,6 +42,9 @@ func (c *foConsumer) loop() {
 		n := c.seen[id]
 		c.seen[id]++
 		c.mu.Unlock()
+		for i := 0; i < c.yield; i++ {
+			runtime.Gosched()
+		}
 		if n < c.nacks[id] {
 			m.Nack()
 		} else {
